@@ -264,7 +264,7 @@ fn gen(seed: u64, family: &str, tier: Tier) -> Case {
     if family == "disk-full" {
         // the disk fills up (or the medium breaks) under the response file and stays that way: run() may fail,
         // it must still return
-        simcfg.faults = sim::F_SHORT_WRITE | sim::F_EINTR_WRITE | *r.pick(&[sim::F_ENOSPC_WRITE, sim::F_ENOSPC_WRITE, sim::F_EIO_WRITE]);
+        simcfg.faults = sim::F_SHORT_WRITE | sim::F_EINTR_WRITE | *r.pick(&[sim::F_ENOSPC_WRITE, sim::F_ENOSPC_WRITE, sim::F_EIO_WRITE, sim::F_ZERO_WRITE]);
         simcfg.io_fault_rate = *r.pick(&[0.05, 0.3, 0.9]);
         simcfg.max_hard_faults = 1;
         simcfg.fault_paths = vec!["/sim/out".into()];
@@ -357,7 +357,7 @@ fn judge(case: &Case, obs: &Obs) -> (Vec<Violation>, BTreeMap<String, u64>, bool
     for p in &obs.panics {
         v.push(Violation { class: panic_class(p), detail: format!("panic: {} at {} (thread {:?}); batch {}", p.message, p.location, p.thread, serde_json::to_string(batch).unwrap().chars().take(500).collect::<String>()) });
     }
-    let hard_fired: u64 = obs.stats.faults.iter().filter(|(k, _)| *k == "eio_write" || *k == "enospc_write").map(|(_, n)| *n).sum();
+    let hard_fired: u64 = obs.stats.faults.iter().filter(|(k, _)| *k == "eio_write" || *k == "enospc_write" || *k == "zero_write").map(|(_, n)| *n).sum();
     let run = match obs.runs.get(0) {
         Some(Some(Ok(r))) => r.clone(),
         Some(Some(Err(_))) if hard_fired > 0 => {
